@@ -36,14 +36,27 @@ def render(v) -> str:
     return "?" + repr(v)[:80]
 
 
-def recording_callable(label: str, nout: int, nyield: int):
-    """A callable named `label` that records what it is called with and whose value(s) spell that call out."""
+DEFAULT = "<default>"       # what every parameter of a recording callable defaults to (never a value of the domain)
 
-    def f(*args, **kwargs):
+
+def recording_callable(label: str, nout: int, nyield: int):
+    """A callable named `label` that records what it is called with and whose value(s) spell that call out.
+
+    Every parameter has the distinctive default DEFAULT, so the observed call lists exactly what was passed: an
+    argument that the runner drops (and the callable would silently default) makes the call shorter / shows <default>.
+    """
+
+    def f(a0=DEFAULT, a1=DEFAULT, a2=DEFAULT, a3=DEFAULT, a4=DEFAULT, a5=DEFAULT, *rest, k=DEFAULT, z=DEFAULT, **kwargs):
         import harness.drive.lowering as L      # by reference: the runner executes an unpickled copy of f
 
-        term = label + "(" + ",".join(L.render(a) for a in args) + "){" + ",".join(
-            f"{k}={L.render(v)}" for k, v in sorted(kwargs.items())) + "}"
+        dflt = lambda v: isinstance(v, str) and v == L.DEFAULT  # noqa: E731
+        args = [a0, a1, a2, a3, a4, a5] + list(rest)
+        while args and dflt(args[-1]):
+            args.pop()
+        kw = dict(kwargs)
+        kw.update({n: v for n, v in (("k", k), ("z", z)) if not dflt(v)})
+        term = label + "(" + ",".join(L.DEFAULT if dflt(a) else L.render(a) for a in args) + "){" + ",".join(
+            f"{n}={L.render(v)}" for n, v in sorted(kw.items())) + "}"
         L.CALLS.append([label, term])
         if nout == 1:
             return ("V", term)
@@ -81,7 +94,10 @@ class DictShm:
 
 
 def item(a: dict):
-    return a["i"] if a["t"] == "int" else a["s"] if a["t"] == "str" else Node.input_name(a["i"] - 1)
+    """Decode an item of the case: JSON (for TLC) has no null, None travels as {"t": "none"}."""
+    t = a["t"]
+    return a["i"] if t == "int" else a["s"] if t == "str" else None if t == "none" else bool(a["i"]) if t == "bool" \
+        else Node.input_name(a["i"] - 1)
 
 
 def observe(case: dict) -> dict:
